@@ -467,12 +467,9 @@ func genSt(r *vc.Rand, thorough bool) []caseLine {
 	for k := 1; k <= 3; k++ {
 		for _, d := range []int{-1, 0, 1} {
 			n := k*maxFrame + d
-			if !thorough && k == 3 && d != 1 {
-				continue
-			}
 			pats := [][]int{{32768}, {65536}, {65537, 1}, {100000}, {4096, 1, 60000}}
 			for pi, pat := range pats {
-				if !thorough && (pi+k+d+1)%3 != 0 {
+				if !thorough && (pi+2*k+d+1)%5 > 1 {
 					continue
 				}
 				c := stCase{me: vc.Pick(r, meIDs)}
@@ -493,7 +490,7 @@ func genSt(r *vc.Rand, thorough bool) []caseLine {
 		}
 	}
 	// (3) random scripts
-	rounds := 160
+	rounds := 450
 	if thorough {
 		rounds = 3500
 	}
